@@ -226,7 +226,8 @@ def run_pair(role, script, how, with_adversary):
                 _, which, op, ename = st
                 target = None
                 if which == 'c':
-                    target = adv.proxy_side if not adv.proxy_side.closed else None
+                    ps = adv.proxy_side
+                    target = ps if ps is not None and not ps.closed else None
                 elif ups:
                     target = ups[0].sock.peer
                 if target is not None and not target.closed:
